@@ -285,8 +285,10 @@ def _classify(res, text, meta, js, diags, err, rc):
             # belongs to that (absent) method
             dflt = None
             for s_ in spans:
-                if s_.get("line_start", 0) in meta.get("defaults", {}):
-                    dflt = meta["defaults"][s_["line_start"]]
+                for ln_ in range(s_.get("line_start", 0), min(s_.get("line_end", s_.get("line_start", 0)), s_.get("line_start", 0) + 400) + 1):
+                    if ln_ in meta.get("defaults", {}):
+                        dflt = meta["defaults"][ln_]
+                        break
             if dflt is not None:
                 clause = _clip(_span_text(clause_span)) if clause_span else ""
                 tags = set()
@@ -294,7 +296,7 @@ def _classify(res, text, meta, js, diags, err, rc):
                     tags |= _tags_for_line(lines, clause_span["line_start"], clause_span.get("line_end"))
                 if not tags:
                     tags = set(res.unit.properties)
-                res.failures.append(Failure(name, dflt[0], kind, "handler not overridden (the trait's empty default applies)", clause, sorted(tags),
+                res.failures.append(Failure(name, dflt[0], kind, dflt[2], clause, sorted(tags),
                                             d.get("rendered", msg), dflt[1], None))
                 continue
             where = prim[0]["line_start"] if prim else "?"
